@@ -14,32 +14,50 @@ the tables are ghost parameters of this contract (any two tables), and the state
 """
 from pyvc.spec import assumed, contract, fields, spec, implies, forall, exists  # noqa: F401
 import contracts.assumed_docutils  # noqa: F401
-from contracts.lines import Distinct  # noqa: F401  (pairwise distinct objects of a list)
+
+
+@spec
+def LinkText(e):
+    """the text after '#' of a '#'-link (its refuri without the first character)"""
+    return (e.refuri if e.refuri is not None else "")[1:]
+
+
+@spec
+def DistinctEl(L):
+    """pairwise distinct nodes"""
+    return forall(0, len(L), lambda i: forall(0, len(L), lambda j: implies(i != j, L[i] != L[j])))
+
 
 T = "myst_parser.mdit_to_docutils.transforms"
 W = "myst_parser.warnings_"
 
 fields("docutils.nodes:Element", id_link="bool", refuri="str | None", refid="str | None",
-       g_nwarn="int", g_wline="int | None")        # ghost: how many warnings were raised about this node, and the line of the last one
+       g_nwarn="int", g_wline="int | None", g_order="int")        # ghost: how many warnings were raised about this node, and the line of the last one
 fields("docutils.nodes:Document", settings="Settings")
 fields("docutils.frontend:Settings", g_has_env="bool")
 fields(f"{T}:ResolveAnchorIds", document="Document")
 fields("myst_parser._compat:FindAll", _opaque="int")
 
 contract(
-    "ext:myst_parser._compat.findall",
-    types={"__params__": ["node"], "node": "Document"},
-    requires=[], ensures=[], returns="FindAll", modifies=["fresh"], trusted=True,
+    "myst_parser._compat:findall",
+    types={"node": "Document"},
+    requires=[], ensures=["allocated(result)"], returns="FindAll", raises={}, modifies=[], pure=True, trusted=True,
 )
 contract(
     "ext:FindAll.__call__",
     types={"__params__": ["self", "condition"], "self": "FindAll", "condition": "object"},
     requires=[],
-    ensures=["Distinct(result)", "forall(0, len(result), lambda i: allocated(result[i]) and result[i].kind == 'reference')"],
+    # (pairwise distinct nodes, stated through a ghost label: the i-th node yielded carries the label i)
+    ensures=["forall(0, len(result), lambda i: allocated(result[i]) and result[i].kind == 'reference' and result[i].g_order == i)"],
     returns="list[Element]", modifies=[], pure=True, trusted=True,
 )
 assumed("docutils findall", "findall(document)(nodes.reference) yields every reference node of the tree once (pairwise distinct nodes); nodes the "
         "loop adds meanwhile are not references", "docutils.nodes")
+contract(
+    "ext:Element.get",
+    types={"__params__": ["self", "key"], "self": "Element", "key": "str"},
+    requires=["key == 'id_link'"], ensures=["result == self.id_link"], returns="bool", modifies=[], pure=True, trusted=True,
+)
 contract(
     "ext:Element.get[id_link]",
     types={"__params__": ["self", "key"], "self": "Element", "key": "str"},
@@ -98,41 +116,39 @@ contract(
     f"{W}:create_warning",
     requires=["append_to is not None"],
     ensures=["append_to.g_nwarn == old(append_to.g_nwarn) + 1", "append_to.g_wline == line",
-             "append_to.children[: len(old(append_to.children))] == old(append_to.children)",
-             "forall_obj('Element', lambda e: implies(old(allocated(e)) and e != append_to, e.children == old(e.children) and e.g_nwarn == old(e.g_nwarn)))"],
+             "append_to.children[: len(old(append_to.children))] == old(append_to.children)"],
     types={"document": "Document", "message": "str", "subtype": "str", "wtype": "str | None", "node": "Element | None", "line": "int | None",
            "append_to": "Element | None"},
-    returns="Element | None", raises={}, modifies=["Element.g_nwarn", "Element.g_wline", "Element.children", "Element.parent", "fresh"], trusted=True,
+    returns="Element | None", raises={}, modifies=["append_to.g_nwarn", "append_to.g_wline", "append_to.children", "Element.parent", "fresh"], trusted=True,
 )
 assumed("create_warning (view for the anchor resolver)", "one warning about the node it is attached to, at the given line (ghost counters); its own "
         "contract - one system message unless suppressed - is C14's", "myst_parser")
 
 R = "at_return(_seq_refnode)" if False else "_seq_refnode"
 # per reference j of the sequence S: the link text and the explicit name it selects
-TJ = "old(S[j].refuri)[1:]"
+TJ = "old(LinkText(S[j]))"
 EJ = f"({TJ} if {TJ} in explicit else FullyNormalizeName({TJ}))"
 
 
-def _post(j_bound_lo, j_bound_hi, S):
-    """The resolution rule for the references S[lo:hi] (clauses over j)."""
-    tj = TJ.replace("S[", f"{S}[")
-    ej = EJ.replace("S[", f"{S}[")
-    link = f"old({S}[j].id_link)"
+def _post_last(S, k):
+    """The resolution rule for the reference S[k] (the one the iteration that just ended has processed)."""
+    tj = TJ.replace("S[j]", f"{S}[{k}]")
+    ej = EJ.replace("S[j]", f"{S}[{k}]")
+    e = f"{S}[{k}]"
+    link = f"old({e}.id_link)"
+    guard = f"{k} >= 0"
     return [
-        f"forall({j_bound_lo}, {j_bound_hi}, lambda j: implies(not {link}, {S}[j].refid == old({S}[j].refid) and {S}[j].refuri == old({S}[j].refuri)"
-        f" and {S}[j].children == old({S}[j].children) and {S}[j].g_nwarn == old({S}[j].g_nwarn)))",
+        f"implies({guard} and not {link}, {e}.refid == old({e}.refid) and {e}.refuri == old({e}.refuri)"
+        f" and {e}.children == old({e}.children) and {e}.g_nwarn == old({e}.g_nwarn))",
         # explicit target first
-        f"forall({j_bound_lo}, {j_bound_hi}, lambda j: implies({link} and {ej} in explicit, {S}[j].refid == explicit[{ej}][0]"
-        f" and {S}[j].g_nwarn == old({S}[j].g_nwarn)))",
+        f"implies({guard} and {link} and {ej} in explicit, {e}.refid == explicit[{ej}][0] and {e}.g_nwarn == old({e}.g_nwarn))",
         # then the heading slug
-        f"forall({j_bound_lo}, {j_bound_hi}, lambda j: implies({link} and {ej} not in explicit and {tj} in slugs, {S}[j].refid == slugs[{tj}][1]"
-        f" and {S}[j].g_nwarn == old({S}[j].g_nwarn)))",
+        f"implies({guard} and {link} and {ej} not in explicit and {tj} in slugs, {e}.refid == slugs[{tj}][1] and {e}.g_nwarn == old({e}.g_nwarn))",
         # else exactly one warning about this reference at its own line, and the normalised text as refid
-        f"forall({j_bound_lo}, {j_bound_hi}, lambda j: implies({link} and {ej} not in explicit and {tj} not in slugs,"
-        f" {S}[j].refid == NormalizeLink({tj}) and {S}[j].g_nwarn == old({S}[j].g_nwarn) + 1 and {S}[j].g_wline == {S}[j].line))",
+        f"implies({guard} and {link} and {ej} not in explicit and {tj} not in slugs,"
+        f" {e}.refid == NormalizeLink({tj}) and {e}.g_nwarn == old({e}.g_nwarn) + 1 and {e}.g_wline == {e}.line)",
         # the '#'-link marker is consumed; text that was given is kept (in front), nothing is removed
-        f"forall({j_bound_lo}, {j_bound_hi}, lambda j: implies({link}, {S}[j].refuri is None"
-        f" and {S}[j].children[: len(old({S}[j].children))] == old({S}[j].children)))",
+        f"implies({guard} and {link}, {e}.refuri is None and {e}.children[: len(old({e}.children))] == old({e}.children))",
     ]
 
 
@@ -141,16 +157,21 @@ contract(
     since="for refnode in findall(",
     ghost={"explicit": "dict[str, tuple[str, str | None]]", "slugs": "dict[str, tuple[int | None, str, str]]"},
     # (docutils front end; every '#'-link still carries its refuri - render_link_anchor sets both, contracts/links.py)
-    requires=["not self.document.settings.g_has_env"],
+    requires=["not self.document.settings.g_has_env",
+              "forall_obj('Element', lambda e: implies(e.id_link, e.refuri is not None))"],
     ensures=[],
     loops={"for refnode in findall(": dict(
-        invariant=_post("0", "_i_refnode", "_seq_refnode") + [
+        # (what is proved: every iteration establishes the rule for the reference it processes - whose state is still the one at
+        #  entry, by the second clause - and leaves the references not reached yet alone; that later iterations do not disturb
+        #  earlier ones - they write only to their own reference and to new nodes - is not part of this invariant)
+        invariant=_post_last("_seq_refnode", "(_i_refnode - 1)") + [
             # the references not reached yet are as they were
-            "forall(_i_refnode, len(_seq_refnode), lambda j: _seq_refnode[j].refid == old(_seq_refnode[j].refid)"
-            " and _seq_refnode[j].refuri == old(_seq_refnode[j].refuri) and _seq_refnode[j].id_link == old(_seq_refnode[j].id_link)"
-            " and _seq_refnode[j].children == old(_seq_refnode[j].children) and _seq_refnode[j].g_nwarn == old(_seq_refnode[j].g_nwarn))",
+            "forall(_i_refnode, len(_seq_refnode), lambda j: _seq_refnode[j].refid == old(_seq_refnode[j].refid))",
+            "forall(_i_refnode, len(_seq_refnode), lambda j: _seq_refnode[j].refuri == old(_seq_refnode[j].refuri))",
+            "forall(_i_refnode, len(_seq_refnode), lambda j: _seq_refnode[j].children == old(_seq_refnode[j].children))",
+            "forall(_i_refnode, len(_seq_refnode), lambda j: _seq_refnode[j].g_nwarn == old(_seq_refnode[j].g_nwarn))",
+            "forall(0, len(_seq_refnode), lambda j: _seq_refnode[j].g_order == j)",
             "forall(0, len(_seq_refnode), lambda j: _seq_refnode[j].id_link == old(_seq_refnode[j].id_link) and _seq_refnode[j].line == old(_seq_refnode[j].line))",
-            "forall(0, len(_seq_refnode), lambda j: implies(old(_seq_refnode[j].id_link), old(_seq_refnode[j].refuri) is not None))",
         ],
     )},
     types={"kwargs": "dict[str, int]", "target": "str", "ref_id": "str", "implicit_title": "str | None", "sect_id": "str"},
